@@ -26,6 +26,21 @@ LimitsKept(T, e, S1) ==
        THEN "limit-not-in-force-for-member"
   ELSE ""
 
+\* "adding a pid really moves that process (and only it)": a process is all its threads.  Every thread of
+\* every helper (/proc/<pid>/task/*/cgroup) is in the group the model has the process in; the tasks file of
+\* every group lists tasks of exactly the helpers that are in it; pids.current is their thread count
+\* pids.current is hierarchical: the tasks of the group and of every group below it
+Under(m, p) == m # Outside /\ Len(m) >= Len(p) /\ SubSeq(m, 1, Len(p)) = p
+RECURSIVE SumThr(_, _)
+SumThr(e, K) == IF K = {} THEN 0 ELSE LET k == CHOOSE x \in K : TRUE IN e.nthr[k] + SumThr(e, K \ {k})
+ThreadsOK(T, e, S1) ==
+  LET P == ToSet(T.pids) IN
+  IF \E c \in S1.ctls : e.self[c] # Outside THEN "moved-a-foreign-process"            \* "(and only it)": here the driver itself
+  ELSE IF \E c \in S1.ctls : \E k \in P : ToSet(e.thr[c][k]) # {S1.mem[c][k]} THEN "process-split-across-groups"
+  ELSE IF \E x \in ToSet(e.ten) : ToSet(x.who) # { k \in P : S1.mem[x.ctl][k] = x.path } THEN "tasks-file"
+  ELSE IF \E x \in ToSet(e.pcur) : x.val # ToString(SumThr(e, { k \in P : Under(S1.mem["pids"][k], x.path) })) THEN "pids-current"
+  ELSE ""
+
 \* compares the logged outcome of a call with the result r of its Spec operator
 Against(T, e, r) ==
   IF e.err /\ ~r.err THEN "unexpected-error"
@@ -38,6 +53,7 @@ Against(T, e, r) ==
           ELSE IF \E c \in S.ctls : r.S.dirs[c] \ ObsDirs(e)[c] # {} THEN "group-missing"
           ELSE "group-not-removed")
   ELSE IF ObsMem(T, e) # r.S.mem THEN "membership"
+  ELSE IF ThreadsOK(T, e, r.S) # "" THEN ThreadsOK(T, e, r.S)
   ELSE LimitsKept(T, e, r.S)
 
 
